@@ -5,11 +5,14 @@ LEVEL = 'proof'
 def build(ctx):
     import contracts.relocate  # registers replays
     ctx.task('contracts.relocate:task_relocate')
+    from props import common
+    # the consuming pairs are built by the passes: no pass may bake a %hi / %lo computed before the layout is final
+    common.pass_tasks(ctx, ['transform_compressible', 'transform_pseudo_instructions', 'resolve_immediates'])
 
 
 def bounded(ctx):
     from props import common
-    common.suites(ctx, ['val', 'li'], {'value', 'li'})
+    common.suites(ctx, ['val', 'li', 'rand'], {'value', 'li'})
 
 
 def explanation(ctx):
